@@ -374,6 +374,14 @@ impl Env {
         &self.startdir
     }
 
+    /// Reports whether this process is the first step of `redo-unlocked`:
+    /// it brings the uncertain dependencies of some other target up to date
+    /// on behalf of that target, with normal locking.
+    #[inline]
+    pub fn is_out_of_band(&self) -> bool {
+        self.no_oob && !self.unlocked
+    }
+
     #[inline]
     pub fn is_unlocked(&self) -> bool {
         self.unlocked
